@@ -122,8 +122,8 @@ theorem build_repTree_minute (n : Nat) (h : n < 60) :
   simp [buildMinute, assertRule, Tree.rule, Tree.text, parseBounded, natOfDigits_pad2 n (by omega), b,
     bind, Except.bind]
 
-theorem rule_node (r : PRule) (t : List Char) (k : List T) : Tree.rule (.node r t k : T) = r := rfl
-theorem kids_node (r : PRule) (t : List Char) (k : List T) : Tree.kids (.node r t k : T) = k := rfl
+theorem time_rule_node (r : PRule) (t : List Char) (k : List T) : Tree.rule (.node r t k : T) = r := rfl
+theorem time_kids_node (r : PRule) (t : List Char) (k : List T) : Tree.kids (.node r t k : T) = k := rfl
 
 theorem build_timespan (t : TimeSpan) (hok : okSpan t = true) : buildTimespan (spanTree t) = .ok t := by
   obtain ⟨s, e, oe, rp⟩ := t
@@ -140,22 +140,22 @@ theorem build_timespan (t : TimeSpan) (hok : okSpan t = true) : buildTimespan (s
     have er : ((r.toNat : Nat) : Int) = r := by omega
     by_cases h : r.toNat < 60
     · have bm := build_repTree_minute r.toNat h
-      simp [buildTimespan, spanTree, spanKids, repTree, h, assertRule, rule_node, kids_node, bs, be, re, bm,
+      simp [buildTimespan, spanTree, spanKids, repTree, h, assertRule, time_rule_node, time_kids_node, bs, be, re, bm,
         er, bind, Except.bind]
     · have bm := build_hour_minutes_as_duration r.toNat (by omega)
       simp only [hmTree] at bm
-      simp [buildTimespan, spanTree, spanKids, repTree, h, hmTree, assertRule, rule_node, kids_node, bs, be,
+      simp [buildTimespan, spanTree, spanKids, repTree, h, hmTree, assertRule, time_rule_node, time_kids_node, bs, be,
         re, bm, er, bind, Except.bind]
   | none =>
     cases oe with
     | false =>
-      simp [buildTimespan, spanTree, spanKids, assertRule, rule_node, kids_node, bs, be, re, bind, Except.bind]
+      simp [buildTimespan, spanTree, spanKids, assertRule, time_rule_node, time_kids_node, bs, be, re, bind, Except.bind]
     | true =>
       by_cases h : e = .fixed 1440
       · subst h
-        simp [buildTimespan, spanTree, spanKids, plusTree, assertRule, rule_node, kids_node, bs, bind,
+        simp [buildTimespan, spanTree, spanKids, plusTree, assertRule, time_rule_node, time_kids_node, bs, bind,
           Except.bind]
-      · simp [buildTimespan, spanTree, spanKids, h, plusTree, assertRule, rule_node, kids_node, bs, be, re,
+      · simp [buildTimespan, spanTree, spanKids, h, plusTree, assertRule, time_rule_node, time_kids_node, bs, be, re,
           bind, Except.bind]
 
 /-- one time span, in a context where no `:`, `+`, `/`, ` /` follows -/
@@ -218,37 +218,37 @@ theorem run_sep_timespan_none (rest : List Char) (hf : FollowTimeSel rest) :
       simp [peg, this]
 
 /-- the printed tail `,b,c` of a list -/
-def tailStr : List TimeSpan → List Char
+def spanTailStr : List TimeSpan → List Char
   | [] => []
-  | t :: ts => ',' :: (Print.timeSpan t ++ tailStr ts)
+  | t :: ts => ',' :: (Print.timeSpan t ++ spanTailStr ts)
 
 theorem selector_eq (t : TimeSpan) (ts : List TimeSpan) :
-    Print.selector Print.timeSpan (t :: ts) = Print.timeSpan t ++ tailStr ts := by
+    Print.selector Print.timeSpan (t :: ts) = Print.timeSpan t ++ spanTailStr ts := by
   induction ts generalizing t with
-  | nil => simp [Print.selector, tailStr]
-  | cons u us ih => simp [Print.selector, tailStr, ih u]
+  | nil => simp [Print.selector, spanTailStr]
+  | cons u us ih => simp [Print.selector, spanTailStr, ih u]
 
 theorem followSpan_tailStr (ts : List TimeSpan) (rest : List Char) (hf : FollowSpan rest) :
-    FollowSpan (tailStr ts ++ rest) := by
+    FollowSpan (spanTailStr ts ++ rest) := by
   cases ts with
-  | nil => simpa [tailStr] using hf
+  | nil => simpa [spanTailStr] using hf
   | cons u us =>
     exact followSpan_cons _ _ (by decide) (by decide) (by decide) (by decide)
 
 theorem run_timespan_star (ts : List TimeSpan) (hok : ∀ t ∈ ts, okSpan t = true) (rest : List Char)
     (hf : FollowTimeSel rest) :
-    run (.star (.seq (.str [',']) g_timespan) : G) false (tailStr ts ++ rest) =
-      some ⟨ts.map spanTree, tailStr ts, rest⟩ := by
+    run (.star (.seq (.str [',']) g_timespan) : G) false (spanTailStr ts ++ rest) =
+      some ⟨ts.map spanTree, spanTailStr ts, rest⟩ := by
   induction ts with
   | nil =>
-    simpa [tailStr, R.nil] using run_star_none (run_sep_timespan_none rest hf)
+    simpa [spanTailStr, R.nil] using run_star_none (run_sep_timespan_none rest hf)
   | cons t ts ih =>
-    have h1 : run (.seq (.str [',']) g_timespan : G) false (tailStr (t :: ts) ++ rest) =
-        some ⟨[spanTree t], ',' :: Print.timeSpan t, tailStr ts ++ rest⟩ := by
-      have := run_timespan t (hok t (by simp)) (tailStr ts ++ rest) (followSpan_tailStr ts rest hf.1)
-      simp [tailStr, peg, this]
+    have h1 : run (.seq (.str [',']) g_timespan : G) false (spanTailStr (t :: ts) ++ rest) =
+        some ⟨[spanTree t], ',' :: Print.timeSpan t, spanTailStr ts ++ rest⟩ := by
+      have := run_timespan t (hok t (by simp)) (spanTailStr ts ++ rest) (followSpan_tailStr ts rest hf.1)
+      simp [spanTailStr, peg, this]
     have := run_star_some h1 (by simp) (ih (fun u hu => hok u (by simp [hu])))
-    simpa [R.append, tailStr] using this
+    simpa [R.append, spanTailStr] using this
 
 theorem mapM_build_timespan (ts : List TimeSpan) (hok : ∀ t ∈ ts, okSpan t = true) :
     (ts.map spanTree).mapM buildTimespan = .ok ts := by
@@ -267,12 +267,12 @@ theorem parses_time_selector' (ts : List TimeSpan) (hne : ts ≠ []) (hok : ∀ 
   | cons t ts =>
     refine ParsesTo.mk' .time_selector ((t :: ts).map spanTree) ?_ ?_
     · rw [selector_eq]
-      have h1 := run_timespan t (hok t (by simp)) (tailStr ts ++ rest) (followSpan_tailStr ts rest hf.1)
+      have h1 := run_timespan t (hok t (by simp)) (spanTailStr ts ++ rest) (followSpan_tailStr ts rest hf.1)
       have h2 := run_timespan_star ts (fun u hu => hok u (by simp [hu])) rest hf
       simp only [List.append_assoc]
       simp [g_time_selector, run_rule, run_seq, h1, h2, R.append]
     · have := mapM_build_timespan (t :: ts) hok
-      simp only [buildTimeSelector, assertRule, rule_node, kids_node, reduceIte, bind, Except.bind, this]
+      simp only [buildTimeSelector, assertRule, time_rule_node, time_kids_node, reduceIte, bind, Except.bind, this]
 
 /-- a printed time selector starts with a digit, `(`, `d` or `s` (what `FollowWeekday`/`FollowWide` ask
 of the text after the space) -/
